@@ -474,3 +474,195 @@ Proof.
   intros Hlen st Hk Hn Hp. apply (bgp_accepted_session_has_fresh_id_std st k v Hk Hn Hp).
   intros j id Hj. destruct (bgp_live_sessions_have_distinct_ids s0 n0 h Hlen) as [_ H]. fold st in H. apply H in Hj. lia.
 Qed.
+
+(* ------------------------------------------------------------------ *)
+(* 2c. a live session HAS an ingress id (and only a live session has one) - for histories in which BGP sessions are
+   opened and closed through the unit (BOpen / BClose / BReload), not by a WBgpOpen / WBgpClose handed to the
+   pipeline model directly (BE passes every pipeline operation on; the engine uses it for BMP traffic and edits) *)
+
+Definition bop_plain (o : bop) : bool :=
+  match o with
+  | BE (EW (WBgpOpen _)) | BE (EW (WBgpClose _)) => false
+  | _ => true
+  end.
+
+Definition sess_ided (st : bstate) : Prop :=
+  forall k, bs_sess st !! k = None <-> w_bgp (b_world st) !! k = None.
+
+Lemma wstep_bgp_same w wo :
+  match wo with WBgpOpen _ | WBgpClose _ => False | _ => True end -> w_bgp (wstep w wo).1 = w_bgp w.
+Proof.
+  destruct wo as [k|k m|k|b|b u|b|af pfx|k]; cbn [wstep]; intros H; try contradiction; try reflexivity.
+  - destruct (find_or_register router_match (w_reg w) (router_query (w_unit w) k)) as [rid r']. reflexivity.
+  - destruct (w_routers w !! k) as [[rid s]|]; [|reflexivity].
+    destruct (sm_step (w_reg w) rid s m) as [[r' s'] out]. reflexivity.
+  - destruct (w_routers w !! k) as [[rid s]|]; reflexivity.
+  - destruct (w_bgp w !! b) as [[id c]|]; [destruct u|]; reflexivity.
+Qed.
+
+Lemma wstep_bgp_close w b : w_bgp (wstep w (WBgpClose b)).1 = delete b (w_bgp w).
+Proof.
+  cbn [wstep]. destruct (w_bgp w !! b) as [[id c]|] eqn:E; cbn [fst w_bgp]; [reflexivity|].
+  symmetry. apply delete_notin, E.
+Qed.
+
+Lemma wstep_bgp_open w b : exists v, w_bgp (wstep w (WBgpOpen b)).1 = <[b := v]> (w_bgp w).
+Proof. cbn [wstep reg_register]. eexists. reflexivity. Qed.
+
+Lemma b_step_sess_ided st o : bop_plain o = true -> sess_ided st -> sess_ided (b_step st o).
+Proof.
+  intros Hp H. unfold sess_ided, b_world in *. destruct o as [e|k v|a|k|k u|k|unh].
+  - destruct e as [wo| | | |]; try exact H. cbn [b_step bs_e bs_sess]. rewrite (e_step_w false (bs_e st) (EW wo)).
+    rewrite wstep_bgp_same; [exact H|]. destruct wo; try exact I; discriminate.
+  - exact H.
+  - exact H.
+  - cbn [b_step]. destruct (negb (is_bgp_addr k)); [exact H|]. destruct (bs_sess st !! k); [exact H|].
+    destruct (bc_peers (bs_cfg st) !! k) as [v|]; [|exact H]. cbn [bs_e bs_sess].
+    rewrite (e_step_w false (bs_e st) (EW (WBgpOpen k))). destruct (wstep_bgp_open (es_w (bs_e st)) k) as [x ->].
+    intros j. destruct (decide (j = k)) as [->|Hne].
+    + rewrite !lookup_insert. split; discriminate.
+    + rewrite !lookup_insert_ne by congruence. apply H.
+  - cbn [b_step]. destruct (bs_sess st !! k); [|exact H]. cbn [bs_e bs_sess].
+    rewrite (e_step_w false (bs_e st) (EW (WBgpUpdate k (Some u)))). rewrite wstep_bgp_same; [exact H|exact I].
+  - cbn [b_step]. destruct (bs_sess st !! k); [|exact H]. cbn [bs_e bs_sess].
+    rewrite (e_step_w false (bs_e st) (EW (WBgpClose k))), wstep_bgp_close.
+    intros j. destruct (decide (j = k)) as [->|Hne].
+    + rewrite !lookup_delete. tauto.
+    + rewrite !lookup_delete_ne by congruence. apply H.
+  - cbn [b_step bs_e bs_sess]. rewrite (e_step_w false _ EReload).
+    set (l := b_ended (bs_file st) (bs_sess st)).
+    destruct (fold_end_world unh l (bs_e st)) as (_ & W1 & W2). intros j.
+    destruct (fold_delete_lookup l (bs_sess st) j) as [F1 F2].
+    destruct (In_dec N.eq_dec j l) as [Hin|Hin].
+    + rewrite (F1 Hin), (W1 j Hin). tauto.
+    + rewrite (F2 Hin), (W2 j Hin). apply H.
+Qed.
+
+Lemma b_run_sess_ided h : forall st, forallb bop_plain h = true -> sess_ided st -> sess_ided (b_run st h).
+Proof.
+  induction h as [|o h IH]; intros st Hp H; [exact H|]. cbn [forallb] in Hp. apply andb_true_iff in Hp as [Ho Hp].
+  cbn [b_run fold_left]. apply IH; [exact Hp|]. apply b_step_sess_ided; assumption.
+Qed.
+
+Theorem bgp_live_sessions_have_ids s0 n0 h k :
+  forallb bop_plain h = true ->
+  let st := b_run (b_init s0 n0) h in
+  b_sess_of st k = None <-> b_session_id st k = None.
+Proof.
+  intros Hp st. assert (H : sess_ided st).
+  { apply b_run_sess_ided; [exact Hp|]. intros j. cbn. rewrite !lookup_empty. tauto. }
+  unfold b_sess_of, b_session_id. rewrite (H k). destruct (w_bgp (b_world st) !! k) as [[id c]|]; [|tauto].
+  split; discriminate.
+Qed.
+
+(* the two together, as Props_C13 / Props_C02 state them *)
+Theorem bgp_live_sessions_have_ids_of_their_own s0 n0 h :
+  N.of_nat (length h) < two32 - 2 ->
+  let st := b_run (b_init s0 n0) h in
+  (forall j k id, b_session_id st j = Some id -> b_session_id st k = Some id -> j = k) /\
+  (forall k id, b_session_id st k = Some id -> id < serial (w_reg (b_world st))) /\
+  (forallb bop_plain h = true -> forall k, b_sess_of st k = None <-> b_session_id st k = None).
+Proof.
+  intros Hlen st. destruct (bgp_live_sessions_have_distinct_ids s0 n0 h Hlen) as [H1 H2].
+  split; [exact H1|]. split; [exact H2|]. intros Hp k. apply bgp_live_sessions_have_ids, Hp.
+Qed.
+
+(* ------------------------------------------------------------------ *)
+(* 2d. the bound on the length of the history cannot be dropped: the register's counter is a u32. Address 0 opens a
+   session; address 1 connects and leaves 2^32 - 1 times; its next connection is given the id of the session of
+   address 0, which is still there. *)
+
+Definition b_cycle : list bop := [BOpen 1; BClose 1].
+Fixpoint b_cycles (n : nat) : list bop := match n with O => [] | S n' => b_cycle ++ b_cycles n' end.
+
+Definition cycle_ready (st : bstate) : Prop :=
+  bs_sess st !! 1 = None /\ (exists v, bc_peers (bs_cfg st) !! 1 = Some v) /\ serial (w_reg (b_world st)) < two32.
+
+Lemma b_open_close st k v :
+  is_bgp_addr k = true -> bs_sess st !! k = None -> bc_peers (bs_cfg st) !! k = Some v ->
+  b_run st [BOpen k; BClose k] =
+  MkBs (e_step false (e_step false (bs_e st) (EW (WBgpOpen k))) (EW (WBgpClose k))) (bs_file st) (bs_cfg st)
+       (delete k (<[k := (bc_asn (bs_cfg st), v)]> (bs_sess st))) (bs_accepted st + 1) (bs_lost st + 1) (bs_disc st).
+Proof.
+  intros Hk Hs Hv. unfold b_run. cbn [fold_left].
+  assert (E1 : b_step st (BOpen k) =
+               MkBs (e_step false (bs_e st) (EW (WBgpOpen k))) (bs_file st) (bs_cfg st)
+                    (<[k := (bc_asn (bs_cfg st), v)]> (bs_sess st)) (bs_accepted st + 1) (bs_lost st) (bs_disc st)).
+  { cbn [b_step]. rewrite Hk. cbn [negb]. rewrite Hs, Hv. reflexivity. }
+  rewrite E1. cbn [b_step bs_sess]. rewrite lookup_insert. reflexivity.
+Qed.
+
+Lemma b_cycle_step st :
+  cycle_ready st ->
+  let st' := b_run st b_cycle in
+  cycle_ready st' /\ bs_cfg st' = bs_cfg st /\
+  w_bgp (b_world st') !! 0 = w_bgp (b_world st) !! 0 /\ bs_sess st' !! 0 = bs_sess st !! 0 /\
+  serial (w_reg (b_world st')) = (serial (w_reg (b_world st)) + 1) mod two32.
+Proof.
+  intros (Hs & (v & Hv) & Hser). unfold b_cycle. rewrite (b_open_close st 1 v eq_refl Hs Hv).
+  unfold cycle_ready, b_world. cbn [bs_e bs_sess bs_cfg].
+  rewrite (e_step_w false _ (EW (WBgpClose 1))), (e_step_w false _ (EW (WBgpOpen 1))).
+  assert (Hreg : w_reg (wstep (wstep (es_w (bs_e st)) (WBgpOpen 1)).1 (WBgpClose 1)).1 =
+                 MkReg ((serial (w_reg (es_w (bs_e st))) + 1) mod two32) (infos (w_reg (es_w (bs_e st))))).
+  { cbn [wstep reg_register fst w_bgp]. rewrite lookup_insert. reflexivity. }
+  rewrite Hreg, wstep_bgp_close. destruct (wstep_bgp_open (es_w (bs_e st)) 1) as [x ->]. cbn [serial].
+  rewrite !lookup_delete, !lookup_delete_ne, !lookup_insert_ne by discriminate.
+  split; [split; [reflexivity|]; split; [exists v; exact Hv|apply N.mod_lt; unfold two32; lia]|].
+  repeat split; reflexivity.
+Qed.
+
+Lemma b_cycles_run n : forall st,
+  cycle_ready st ->
+  let st' := b_run st (b_cycles n) in
+  cycle_ready st' /\ bs_cfg st' = bs_cfg st /\
+  w_bgp (b_world st') !! 0 = w_bgp (b_world st) !! 0 /\ bs_sess st' !! 0 = bs_sess st !! 0 /\
+  serial (w_reg (b_world st')) = (serial (w_reg (b_world st)) + N.of_nat n) mod two32.
+Proof.
+  induction n as [|n IH]; intros st Hr.
+  - cbn [b_cycles b_run fold_left]. repeat split; try apply Hr.
+    rewrite N.add_0_r, N.mod_small; [reflexivity|apply Hr].
+  - cbn [b_cycles]. unfold b_run. rewrite fold_left_app. fold (b_run st b_cycle). fold (b_run (b_run st b_cycle) (b_cycles n)).
+    destruct (b_cycle_step st Hr) as (Hr1 & Hc1 & Hw1 & Hs1 & Hser1).
+    destruct (IH _ Hr1) as (Hr2 & Hc2 & Hw2 & Hs2 & Hser2).
+    split; [exact Hr2|]. split; [congruence|]. split; [congruence|]. split; [congruence|].
+    rewrite Hser2, Hser1. rewrite N.add_mod_idemp_l by (unfold two32; lia). f_equal. lia.
+Qed.
+
+Lemma b_run_cons st o h : b_run st (o :: h) = b_run (b_step st o) h.
+Proof. reflexivity. Qed.
+
+Lemma bgp_session_ids_wrap (n : nat) :
+  N.of_nat n = two32 - 1 ->
+  let st := b_run (b_init SNone 0) (BOpen 0 :: b_cycles n) in
+  let st' := b_step st (BOpen 1) in
+  b_sess_of st' 0 <> None /\ b_sess_of st' 1 <> None /\
+  b_session_id st' 0 = Some 2 /\ b_session_id st' 1 = Some 2.
+Proof.
+  intros Hn st st'. subst st' st. rewrite b_run_cons.
+  set (st1 := b_step (b_init SNone 0) (BOpen 0)).
+  assert (H1 : cycle_ready st1 /\ w_bgp (b_world st1) !! 0 = Some (2, 0) /\ bs_sess st1 !! 0 = Some (0, 1) /\
+               serial (w_reg (b_world st1)) = 3).
+  { subst st1. clear n Hn. vm_compute. repeat split; try reflexivity. exists 1. reflexivity. }
+  destruct H1 as (Hr1 & Hw1 & Hs1 & Hser1).
+  destruct (b_cycles_run n st1 Hr1) as (Hr & Hc & Hw & Hs & Hser).
+  set (st2 := b_run st1 (b_cycles n)) in *. clearbody st2 st1.
+  rewrite Hn, Hser1 in Hser. change ((3 + (two32 - 1)) mod two32) with 2 in Hser.
+  destruct Hr as (Hnone & (v & Hv) & _).
+  assert (E : b_step st2 (BOpen 1) =
+              MkBs (e_step false (bs_e st2) (EW (WBgpOpen 1))) (bs_file st2) (bs_cfg st2)
+                   (<[1 := (bc_asn (bs_cfg st2), v)]> (bs_sess st2)) (bs_accepted st2 + 1) (bs_lost st2) (bs_disc st2)).
+  { cbn [b_step]. change (is_bgp_addr 1) with true. cbn [negb]. rewrite Hnone, Hv. reflexivity. }
+  rewrite E. unfold b_sess_of, b_session_id, b_world. cbn [bs_sess bs_e].
+  rewrite (e_step_w false _ (EW (WBgpOpen 1))). cbn [wstep reg_register fst w_bgp].
+  rewrite lookup_insert, !lookup_insert_ne by discriminate. unfold b_world in Hw, Hw1, Hser. rewrite Hw, Hw1, Hs, Hs1, Hser.
+  rewrite lookup_insert. split; [discriminate|]. split; [discriminate|]. split; reflexivity.
+Qed.
+
+Definition b_wrap_hist : list bop := BOpen 0 :: b_cycles (N.to_nat (two32 - 1)).
+
+Theorem bgp_session_ids_wrap_refuted :
+  let st := b_run (b_init SNone 0) b_wrap_hist in
+  let st' := b_step st (BOpen 1) in
+  b_sess_of st' 0 <> None /\ b_sess_of st' 1 <> None /\
+  b_session_id st' 0 = Some 2 /\ b_session_id st' 1 = Some 2.
+Proof. exact (bgp_session_ids_wrap (N.to_nat (two32 - 1)) (N2Nat.id (two32 - 1))). Qed.
